@@ -1105,8 +1105,16 @@ def check_c12(tier, seed, log=print):
     P.build_harness()
     P.build_lean()
     R = _random.Random(seed)
-    base = [d for d in D.corpus(seed, 30 if tier == 'quick' else 200, dict(cb_p=0.15)) if d.utf8]
-    base = base[: (18 if tier == 'quick' else 120)]
+    allb = [d for d in D.corpus(seed, 30 if tier == 'quick' else 200, dict(cb_p=0.15)) if d.utf8]
+    # the definitions whose meaning could depend on the mode come first whatever the size of the corpus: subpatterns,
+    # non-ASCII literals and classes, dots and negated classes
+    def mode_sensitive(d):
+        return bool(d.subpatterns) or any((not l.is_bytes) and (any(ord(ch) > 127 for ch in l.pat) or '.' in l.pat or '[^' in l.pat or '\\s' in l.pat or '\\w' in l.pat or '\\d' in l.pat)
+                                          for l in d.leaves)
+    first = [d for d in allb if mode_sensitive(d)]
+    rest = [d for d in allb if not mode_sensitive(d)]
+    lim = 22 if tier == 'quick' else 140
+    base = (first[: lim - 6] + rest)[:lim]
     twins = []
     for d in base:
         t = copy.deepcopy(d)
